@@ -225,6 +225,72 @@ def check_decode(space, name, acc):
         raise Violation(f"{space}: parse of code {R.KEY_SPACES[space][name]} also shows {others}", f"only {name}")
 
 
+def _reachable(root, limit=50000):
+    """Objects of the tool's model reachable from a parsed envelope object (attributes and containers)."""
+    seen, stack, out = set(), [root], []
+    while stack and len(seen) < limit:
+        o = stack.pop()
+        if isinstance(o, (str, bytes, int, float, bool, type(None))) or id(o) in seen:
+            continue
+        seen.add(id(o))
+        if isinstance(o, dict):
+            stack.extend(o.keys())
+            stack.extend(o.values())
+        elif isinstance(o, (list, tuple, set, frozenset)):
+            stack.extend(o)
+        else:
+            if type(o).__module__.startswith("suit_generator"):
+                out.append(o)
+            d = getattr(o, "__dict__", None)
+            if isinstance(d, dict):
+                stack.extend(d.values())
+            try:
+                stack.append(getattr(o, "value", None))  # wrappers without an attribute dictionary (CBOR tags) hold their content here
+            except Exception:
+                pass
+    return out
+
+
+def check_edit_isolation(space, name, acc):
+    """A library user edits a LOADED envelope object (the model's public value setter, as the repository's own tests do): that changes this
+    object - the correspondence used for the next binary input stays what it was."""
+    if name == "suit-delegation":
+        return
+    desc, _ = place(space, name)
+    data = refenc.envelope(copy.deepcopy(desc))
+    from suit_generator.suit.envelope import SuitEnvelopeTagged
+
+    try:
+        before = sut.parse_mem(data)
+        obj = SuitEnvelopeTagged.from_cbor(data)
+    except boot.HarnessError:
+        raise
+    except Exception:
+        return  # the decode direction reports this
+    other = next((n for n in R.KEY_SPACES[space] if n != name), None)
+    edited = 0
+    for o in _reachable(obj):
+        try:
+            if isinstance(getattr(o, "value", None), str) and o.value == name and other is not None:
+                o.value = other
+                edited += 1
+        except Exception:
+            pass
+    acc.case(nt_key=("edit", space, name) if edited else None, classes=["edit-isolation", f"space:{space}"] + (["edit-isolation:leaf-edited"] if edited else ["edit-isolation:no-editable-leaf"]),
+             sample={"direction": "edit-isolation", "space": space, "name": name, "edited_leaves": edited, "set_to": other} if edited else None, sample_key=f"edit/{space}")
+    try:
+        after = sut.parse_mem(data)
+    except boot.HarnessError:
+        raise
+    except Exception as e:
+        raise Violation(f"{space}: after {edited} value(s) {name!r} of a loaded envelope object were set to {other!r}, the same bytes are refused: {type(e).__name__}: {str(e)[:160]}",
+                        "the same description as before the edit", bucket=f"edit-isolation:{space}")
+    if after != before:
+        raise Violation(f"{space}: after {edited} value(s) {name!r} of a loaded envelope object were set to {other!r}, a fresh parse of the same bytes shows "
+                        f"{_first_difference(_shape(after), _shape(before)) if _shape(after) != _shape(before) else sorted(strings_in(after) ^ strings_in(before))[:4]}",
+                        "the same description as before the edit", bucket=f"edit-isolation:{space}")
+
+
 CLOSED = list(R.KEY_SPACES)
 
 
@@ -697,6 +763,10 @@ def run_shard(ctx, spec):
         for sp, tab in R.KEY_SPACES.items():
             for name in tab:
                 _do(acc, "wide-code", {"space": sp, "name": name, "wide": True}, check_wide_codes, sp, name)
+        # last in this process: edits of loaded objects, each followed by a fresh parse
+        for sp, tab in R.KEY_SPACES.items():
+            for name in tab:
+                _do(acc, "edit-isolation", {"space": sp, "name": name, "edit": True}, check_edit_isolation, sp, name)
     elif kind == "foreign":
         i = 0
         for home, tab in R.KEY_SPACES.items():
@@ -737,6 +807,8 @@ def replay(ctx, check, case):
             check_text_spelling(case["space"], case["name"], acc)
         elif check == "wide-code":
             check_wide_codes(case["space"], case["name"], acc)
+        elif check == "edit-isolation":
+            check_edit_isolation(case["space"], case["name"], acc)
         elif check == "tag-widths":
             check_tag_widths(acc)
         elif check == "policy-integers":
@@ -755,3 +827,5 @@ def finalize(ctx, m, ev):
     pairs = sum(len(t) for t in R.KEY_SPACES.values())
     if c.get("encode", 0) != pairs:
         raise boot.HarnessError(f"encode direction covered {c.get('encode')} of {pairs} pairs")
+    if not c.get("edit-isolation:leaf-edited"):
+        raise boot.HarnessError("no loaded object was edited in the edit-isolation pass")
